@@ -364,7 +364,35 @@ def _run(prop, mod, tier, seed, work, t0, replay_file) -> int:
         pending = []
 
     idx = 0
-    for c in mod.cases(rng, tier):
+
+    def guarded_cases():
+        """the property module's case stream; an exception that escapes from the code under examination at a point where
+        the harness does not expect one (the unchanged code never does that: the harness observes every expected raise
+        itself) ends the stream and is reported as a finding on the call that raised, not as a machinery error"""
+        it = mod.cases(rng, tier)
+        while True:
+            try:
+                yield next(it)
+            except StopIteration:
+                return
+            except Budget:
+                raise
+            except Exception as e:  # noqa
+                tb = traceback.extract_tb(e.__traceback__)
+                lib = [f for f in tb if str(Path(f.filename).resolve()).startswith(str((REPO / "src").resolve()))]
+                if not lib:
+                    raise
+                where = lib[-1]
+                caller = [f for f in tb if "/harness/" in f.filename]
+                at = f"{Path(where.filename).name}:{where.lineno} in {where.name}"
+                yield Case("unexpected-exception", None, None, True,
+                           f"the library raised {type(e).__name__}: {str(e)[:200]} at {at}"
+                           + (f" (called from {Path(caller[-1].filename).name}:{caller[-1].lineno})" if caller else ""),
+                           oracle_fail=f"{type(e).__name__} escaped from {at} where the unchanged library returns",
+                           sig=f"unexpected-exception|{type(e).__name__}|{where.name}")
+                return
+
+    for c in guarded_cases():
         c.index = idx
         idx += 1
         if replay_index is not None and c.index != replay_index:
